@@ -172,6 +172,30 @@ def matchLe (value : Int) (item : Option Int) : Bool :=
   | none => true
   | some v => v == 0 || decide (value ≤ v)
 
+/-- `match_ge(value, rec, s, shift)` with a shift (COMPLUMP's K1). -/
+def matchGeS (value : Int) (item : Option Int) (shift : Int) : Bool :=
+  match item with
+  | none => true
+  | some v => v == 0 || decide (value ≥ shift + v)
+
+/-- `match_le(value, rec, s, shift)` with a shift (COMPLUMP's K2). -/
+def matchLeS (value : Int) (item : Option Int) (shift : Int) : Bool :=
+  match item with
+  | none => true
+  | some v => v == 0 || decide (value ≤ shift + v)
+
+/-- Items 2–5 of a COMPLUMP record (I, J, K1, K2). -/
+structure LumpSel where
+  i : Option Int
+  j : Option Int
+  k1 : Option Int
+  k2 : Option Int
+  deriving Repr, DecidableEq
+
+/-- The `match` lambda of `Well::handleCOMPLUMP`. -/
+def LumpSel.matchesIdent (s : LumpSel) (c : Ident) : Bool :=
+  matchEq c.i s.i (-1) && matchEq c.j s.j (-1) && matchGeS c.k s.k1 (-1) && matchLeS c.k s.k2 (-1)
+
 /-- Items 3–7 of a WPIMULT / WELOPEN record (I, J, K, first, last completion). -/
 structure Sel where
   i : Option Int
@@ -216,6 +240,10 @@ def wpimultAll {α : Type} [Mul α] (f : α) (cs : List (Conn α)) : List (Conn 
 /-- `Well::handleWELOPENConnections`. -/
 def welopenSel {α : Type} (st : State) (s : Sel) (cs : List (Conn α)) : List (Conn α) :=
   cs.map fun c => if s.matches c then setState st c else c
+
+/-- `Well::handleCOMPLUMP`: the matching connections get completion number `n`. -/
+def complumpSel {α : Type} (n : Int) (s : LumpSel) (cs : List (Conn α)) : List (Conn α) :=
+  cs.map fun c => if s.matchesIdent c.ident then { c with complnum := n } else c
 
 /-! ### Ordering (`WellConnections::order`, called by every `Well::updateConnections`) -/
 
@@ -290,6 +318,9 @@ inductive Op (α : Type)
   | compdat (r : CompdatRec α)
   | wpimult (f : α) (s : Sel)
   | welopen (st : State) (s : Sel)
+  /-- COMPLUMP (renumbers completions; not one of the property's operations, modelled so that
+  completion ranges in WPIMULT / WELOPEN are exercised with shared completion numbers) -/
+  | complump (n : Int) (s : LumpSel)
   /-- end of a report step: `Schedule::applyGlobalWPIMULT` -/
   | endStep
 
@@ -320,6 +351,8 @@ def step (E : Env α) (w : WellConns α) : Op α → WellConns α
   | .welopen st s =>
     if s.welopenWellOnly then w
     else { w with conns := reorder E.F E.ord E.headI E.headJ (welopenSel st s w.conns) }
+  | .complump n s =>
+    { w with conns := reorder E.F E.ord E.headI E.headJ (complumpSel n s w.conns) }
   | .endStep =>
     match w.pending with
     | none => w
